@@ -1,18 +1,92 @@
-"""C07 driver: runs subscribe/unsubscribe histories (plus registry re-basing and adapter
-registrations) and the subscription queries on the real registry classes.  The interpreter is
-the shared one (reg_common.run_ops); answers are lists of ints only."""
+"""C07 driver: runs subscribe/unsubscribe histories (plus registry re-basing, adapter
+registrations and — in the dynamic-world stream — changes of the specification graph) and the
+subscription / lookup queries on the real registry classes.
+
+The registry ops are interpreted by the shared reg_common.run_ops.  Two specification ops (same
+meaning and bookkeeping as in harness/drivers/c05_driver.py, from which this part is copied):
+  ["setspecbases", x, [bases]]            specs[x].__bases__ = (...)
+  ["classimplements", c, [ifaces], "add"] classImplements(classes[c], *ifaces)
+Per case the output is
+  specs     spec table: kind, FIRST known bases of every node (at world creation or discovery)
+  obj_provides
+  answers   one answer per op ([] for specification ops)
+  assigns   per op: the [node, bases] ``__bases__`` assignments it performed
+  trouble   unexpected things (a spec op raised, another node's bases moved): fail closed
+Answers are lists of ints only."""
 import _boot
 import reg_common as R
+from zope.interface import classImplements
+
+SPEC_OPS = ("setspecbases", "classimplements")
+
+# Worlds of different cases reuse interface / class names; their specifications compare equal by
+# (name, module) and share one entry in the weak ``dependents`` dictionaries of the process-wide
+# specifications.  Keep every world alive until the process ends (cf. c05_driver.py, finding F10).
+KEEP = []
+
+
+def bases_ids(w, x):
+    return [w.spec_id(b) for b in w.specs[x].__bases__]
+
+
+def snapshot(w):
+    return [tuple(id(b) for b in sp.__bases__) for sp in w.specs]
+
+
+def spec_op(w, op, trouble):
+    before = snapshot(w)
+    target = op[1]
+    if op[0] == "setspecbases":
+        w.specs[op[1]].__bases__ = tuple(w.specs[b] for b in op[2])
+    else:
+        classImplements(w.classes[op[1]], *[w.specs[b] for b in op[2]])
+    assigns = [[op[1], bases_ids(w, op[1])]]
+    after = snapshot(w)
+    for i, (a, b) in enumerate(zip(before, after)):
+        if a != b and i != target:
+            trouble.append("op %r moved the bases of node %d" % (op, i))
+    return assigns
+
+
+def first_bases(w, first):
+    i = len(first)
+    while i < len(w.specs):
+        first.append(bases_ids(w, i))
+        i = len(first)
+
+
+def one_case(case):
+    w = R.World(case)
+    KEEP.append(w)
+    first = []
+    first_bases(w, first)
+    answers, assigns, trouble = [], [], []
+    for op in case["ops"]:
+        if op[0] in SPEC_OPS:
+            try:
+                assigns.append(spec_op(w, op, trouble))
+                answers.append([])
+            except Exception as e:  # noqa
+                trouble.append("spec op %r raised %s: %s" % (op, type(e).__name__, e))
+                answers.append([3])
+                assigns.append([])
+        else:
+            answers.extend(R.run_ops(w, [op]))
+            assigns.append([])
+        first_bases(w, first)
+    obj_provides = [w.spec_id(R.providedBy(o)) for o in w.objects]
+    first_bases(w, first)
+    kinds = list(w.kinds)
+    return {"specs": [{"kind": kinds[i], "bases": first[i]} for i in range(len(first))],
+            "obj_provides": obj_provides, "answers": answers, "assigns": assigns, "trouble": trouble}
+
 
 payload = _boot.read_payload()
 out = []
 for case in payload["cases"]:
     try:
-        w = R.World(case)
-        answers = R.run_ops(w, case["ops"])
-        out.append({"specs": w.observed_specs(),
-                    "obj_provides": [w.spec_id(R.providedBy(o)) for o in w.objects],
-                    "answers": answers})
+        out.append(one_case(case))
     except Exception as e:  # noqa
-        out.append({"error": "%s: %s" % (type(e).__name__, e)})
+        import traceback
+        out.append({"error": "%s: %s\n%s" % (type(e).__name__, e, traceback.format_exc()[-1200:])})
 _boot.write_result({"obs": out})
